@@ -16,6 +16,7 @@ type rpGen struct {
 	routeIx int   // index of the next registered route (registration order)
 	mwBody  func(g *rpGen, id int) []Sx
 	depthMax int
+	lists    [][]Sx
 	clean    bool // only clean spellings of prefixes and paths (strict mode keeps a trailing slash significant)
 }
 
@@ -32,6 +33,18 @@ func (g *rpGen) newMW() Sx {
 }
 
 func (g *rpGen) mws(max int) []Sx {
+	// sometimes the very list used before is used again (a caller spreading one slice into several calls)
+	if len(g.lists) > 0 && max >= 2 && g.r.Chance(1, 6) {
+		return g.lists[g.r.Intn(len(g.lists))]
+	}
+	out := g.mws0(max)
+	if len(out) >= 2 {
+		g.lists = append(g.lists, out)
+	}
+	return out
+}
+
+func (g *rpGen) mws0(max int) []Sx {
 	var out []Sx
 	for n := g.r.Intn(max + 1); n > 0; n-- {
 		out = append(out, g.newMW())
